@@ -103,7 +103,7 @@ let optz = function "-" -> None | s -> Some (z s)
 let op_of (s : string) : Sched.op =
   if s = "n" then Sched.Next
   else if S.get s 0 = 'f' then Sched.Fin (z (S.sub s 1 (S.length s - 1)))
-  else if S.get s 0 = 'r' then begin
+  else if S.get s 0 = 'r' || S.get s 0 = 'l' then begin   (* 'l': the implementation is driven by for-loops with break; the model's Run is the same thing *)
     match S.split_on_char ':' (S.sub s 1 (S.length s - 1)) with
     | [k; lim] -> Sched.Run (z k, nat_of_int (int_of_string lim))
     | _ -> failwith ("op " ^ s) end
